@@ -61,6 +61,7 @@ type Server struct {
 	StartTime   time.Duration
 	ReplMon     bool
 	ReplMonTS   float64
+	Dubious     bool   // connections from other hosts are refused with error 1040 (too many connections)
 	FailRO      uint16 // SET read_only/super_read_only statements fail with this MySQL error number
 	FailSSQuery bool   // the semi-sync status query fails (connection-level error)
 	StmtCount   int
